@@ -215,6 +215,7 @@ Info = ObjT("ModificationInfo")
 @contract("modifiers.py", "QualityTrimmer.__call__", props=["C13"])
 def quality_trimmer_call(c):
     c.types(self=QTrimmer, read=Record, info=Info)
+    c.modifies = ["self.trimmed_bases"]
     c.spec(qsum_spec)
     c.requires(
         base_ok="self.base == 33 or self.base == 64",
@@ -240,6 +241,7 @@ def quality_trimmer_call(c):
 @contract("modifiers.py", "NextseqQualityTrimmer.__call__", props=["C13"])
 def nextseq_trimmer_call(c):
     c.types(self=NSTrimmer, read=Record, info=Info)
+    c.modifies = ["self.trimmed_bases"]
     c.spec(qsum_spec)
     c.requires(
         base_ok="self.base == 33 or self.base == 64",
